@@ -51,7 +51,7 @@ def frames_for(e, acc):
     """Serializations the library generates for payloads conforming to e."""
     seen = set()
     kwroute = K.route_kwargs(e)
-    for fillname, fill in (("00", None), ("inc", lambda i: (i + 1) & 0xFF), ("sync", lambda i: 0xB5 if i % 2 == 0 else 0x62), ("sync1", lambda i: 0xB5 if i % 2 else 0x62)):
+    for fillname, fill in (("00", None), ("inc", lambda i: (i + 1) & 0xFF), ("sync", lambda i: 0xB5 if i % 2 == 0 else 0x62), ("sync1", lambda i: 0xB5 if i % 2 else 0x62), ("lf", lambda i: 0x0A), ("ff", lambda i: 0xFF)):
         for c in (0, 1, 2, 3):
             nms = (0,)
             if _has_none(e.pdict):
@@ -182,7 +182,7 @@ def run_tier(tier, t0):
     engine.finish(
         PROP, tier, acc, t0, replay_case,
         rule=(
-            "every routed SET and POLL definition x conforming payloads (counted groups 0..3 members, variable-by-size groups {0,1,2,3,5,16,63,64,65} members and the member counts that give payloads of 255..257, 511..513, 768 bytes, fills 00 / incrementing / the sync characters b5 62 repeated, at both alignments) generated by the "
+            "every routed SET and POLL definition x conforming payloads (counted groups 0..3 members, variable-by-size groups {0,1,2,3,5,16,63,64,65} members and the member counts that give payloads of 255..257, 511..513, 768 bytes, fills 00 / incrementing / the sync characters b5 62 repeated, at both alignments / all 0a / all ff) generated by the "
             "payload route, the keyword route and (for empty payloads) the no-keyword route; each frame parsed with its true mode and with SETPOLL, in both bitfield views and under both validate settings. Same enumeration in both tiers. "
             "distinct_nontrivial = (mode, route, verdict) classes"
         ),
